@@ -81,7 +81,11 @@ def run(db, res, tier):
   # commute on Data.energy
   from ..rules import r_order
 
+  from ..rules import r_sort
+
+  ntag = r_sort.check_tagged_ids(res, db.launch_ctxs())
+  res.floor("comparisons of tagged ids (R-SORT.3)", ntag, 3)
   nord = r_order.check_both_order_writers(res, db, ["forward.forward"])
   res.floor("function pairs that write one field in either order (R-SEQ.5)", nord, 1)
-  res.rule_text += "; R-SEQ.5: two stage functions whose first writes to a field occur in either order on different host paths do not plainly overwrite a cell / component the other one writes (accumulations commute)"
+  res.rule_text += "; R-SORT.3: an equality test between two tagged ids (efc.id tagged by efc.type, sensor_objid tagged by sensor_type) is reachable only with both tags pinned to members of one index space; R-SEQ.5: two stage functions whose first writes to a field occur in either order on different host paths do not plainly overwrite a cell / component the other one writes (accumulations commute)"
   res.rule_text += "; R-CLAMP: every sensordata store that applies sensor_cutoff stores the clamp / min result itself; R-RECORD: arrays that one kernel writes together per atomically allocated slot are permuted together by any later tile sort, or no consumer reads a sorted and an unsorted one at the same position; R-FAMILY.2: a sensor branch taken for a set of object types reads only frame arrays that are the frame of every type in the set (BODY: xipos/ximat, XBODY: xpos/xmat, GEOM/SITE/CAMERA: their own)"
